@@ -1,0 +1,41 @@
+//go:build verif
+
+package chronicler
+
+// Accessors for the C03 correspondence harness (build tag verif only).
+
+// VerifSetCompactionParams overrides the unexported compaction parameters of a V2 chronicler.
+// Negative values leave a parameter unchanged. Returns false for a non-V2 chronicler.
+func VerifSetCompactionParams(c Chronicler, minEntries int, threshold float64, maxBlockSize int, maxFileSizeForLoadCompact int64) bool {
+	cv, ok := c.(*chroniclerV2)
+	if !ok {
+		return false
+	}
+	cv.mu.Lock()
+	defer cv.mu.Unlock()
+	if minEntries >= 0 {
+		cv.minEntriesForCompact = minEntries
+	}
+	if threshold >= 0 {
+		cv.compactionThreshold = threshold
+	}
+	if maxBlockSize > 0 {
+		cv.maxBlockSize = maxBlockSize
+	}
+	if maxFileSizeForLoadCompact >= 0 {
+		cv.maxFileSizeForLoadCompact = maxFileSizeForLoadCompact
+	}
+	return true
+}
+
+// VerifState reports whether the persistent writer is open, the total-entries counter and
+// the chronicler's swamp name.
+func VerifState(c Chronicler) (writerOpen bool, totalEntries int64, swampName string) {
+	cv, ok := c.(*chroniclerV2)
+	if !ok {
+		return false, 0, ""
+	}
+	cv.mu.RLock()
+	defer cv.mu.RUnlock()
+	return cv.writer != nil && !cv.writerClosed, cv.totalEntriesInFile, cv.swampName
+}
